@@ -559,7 +559,7 @@ Proof.
   - destruct ((0 <=? l) && (l <=? max_i64) && (0 <=? d) && (0 <=? k) && (0 <=? e)) eqn:E; [|discriminate].
     inversion H; subst; cbn [limit]. rewrite !andb_true_iff in E. lia.
   - destruct ((0 <=? l) && (l <=? max_i64) && (0 <=? d) && (0 <=? k) && (0 <=? e) &&
-              ((x =? 0) || ((x =? 1) && (s0 =? 0) && (d =? 0)))) eqn:E; [|discriminate].
+              ((x =? 0) || ((x =? 1) && (s0 =? 0)))) eqn:E; [|discriminate].
     inversion H; subst; cbn [limit]. rewrite !andb_true_iff in E. lia.
 Qed.
 
